@@ -108,8 +108,14 @@ class ufunc:
     def __call__(self, *args, **kwargs):
         dsks = [arg for arg in args if hasattr(arg, "_elemwise")]
         if len(dsks) > 0:
+            op = self._ufunc
+            if kwargs.get("dtype") is not None and isinstance(op, np.ufunc):
+                # NumPy's ``dtype=`` selects the loop: the inputs are cast
+                # before the operation (``np.reciprocal(2, dtype=float)`` is
+                # 0.5). ``elemwise`` alone only casts the finished result.
+                op = partial(op, dtype=kwargs["dtype"])
             for dsk in dsks:
-                result = dsk._elemwise(self._ufunc, *args, **kwargs)
+                result = dsk._elemwise(op, *args, **kwargs)
                 if type(result) != type(NotImplemented):
                     return result
             raise TypeError(
